@@ -123,7 +123,7 @@ func vfC02Gen(rt *rapid.T) vfC02Case {
 			default:
 				id = uint32(rapid.IntRange(200000, 200005).Draw(rt, "rm_unknown"))
 			}
-			return vfSOp{Op: "remove", ID: id}
+			return vfSOp{Op: "remove", ID: id, Vec: vfGenRemovePayload(rt, g)}
 		case w < 60:
 			return vfSOp{Op: "flush"}
 		default:
@@ -574,7 +574,7 @@ func vfC02Run(c vfC02Case, ctx *vfCtx) *vfViolation {
 				return vfFail("op %d: %s Add of an invalid vector succeeded", i, c.Kind)
 			}
 		case "remove":
-			err := u.idx.Remove(*NewVectorNodeWithID(op.ID, nil))
+			err := u.idx.Remove(*NewVectorNodeWithID(op.ID, vfCloneF32(op.Vec)))
 			_, isLive := live[op.ID]
 			if isLive && err != nil {
 				return vfFail("op %d: %s Remove(%d) of a live vector failed: %v", i, c.Kind, op.ID, err)
